@@ -839,5 +839,12 @@ V('C11', 'band-sigmas-memoised-as-plain-tuple', 'silent', '', 'the N-sigma list 
   ('src/pyhf/infer/calculators.py', 'import logging\n', 'import functools\nimport logging\n'),
   ('src/pyhf/infer/calculators.py', '@dataclass(frozen=True)\nclass HypoTestFitResults:', '@functools.lru_cache(maxsize=None)\ndef _band_sigmas():\n    return (2, 1, 0, -1, -2)\n\n\n@dataclass(frozen=True)\nclass HypoTestFitResults:'),
   ('src/pyhf/infer/calculators.py', '                            for n_sigma in [2, 1, 0, -1, -2]\n', '                            for n_sigma in _band_sigmas()\n'))
+V('C16', 'observations-class-level-dict', 'fire', 'C16.R7', 'observations declared with a class-level default and filled through self',
+  ('src/pyhf/workspace.py', "    valid_joins: ClassVar[list[str]] = ['none', 'outer', 'left outer', 'right outer']\n", "    valid_joins: ClassVar[list[str]] = ['none', 'outer', 'left outer', 'right outer']\n    observations: dict = {}\n"),
+  ('src/pyhf/workspace.py', "        self.observations = {}\n        for obs in self['observations']:\n", "        for obs in self['observations']:\n"))
+V('C16', 'observations-class-level-default-and-instance-dict', 'silent', '', 'observations declared with a class-level default but still given a fresh dict per instance',
+  ('src/pyhf/workspace.py', "    valid_joins: ClassVar[list[str]] = ['none', 'outer', 'left outer', 'right outer']\n", "    valid_joins: ClassVar[list[str]] = ['none', 'outer', 'left outer', 'right outer']\n    observations: dict = {}\n"))
+V('C16', 'data-accumulates-into-first-observation', 'fire', 'C16.R7', "data() concatenates in place starting from the first channel's stored observation",
+  ('src/pyhf/workspace.py', '                operator.iadd, (self.observations[c] for c in model.config.channels), []\n', '                operator.iadd, (self.observations[c] for c in model.config.channels)\n'))
 V("C13", "code4-exponent-mask-strict", "fire", "C13.R3", "code 4 takes exponent 1 (a constant) exactly at |alpha| = alpha0",
   ("src/pyhf/interpolators/code4.py", "            exponents >= self.__alpha0, exponents, self.ones", "            exponents > self.__alpha0, exponents, self.ones"))
